@@ -6,7 +6,7 @@ Inductive op :=
 | OWriteHeader (c : Z)
 | OWrite (bs : str) (acc : N)   (* acc: how many bytes the underlying writer accepts *)
 | OFlush
-| OBefore (id : nat)
+| OBefore (id : nat) (p : bool)   (* p: this before function panics when it runs *)
 | OStatus
 | OSize
 | OWritten.
@@ -20,34 +20,45 @@ Inductive ev :=
 | EHook (id : nat) (seen : Z)
 | AStatus (z : Z)
 | ASize (n : N)
-| AWritten (b : bool).
+| AWritten (b : bool)
+| EPanic.                        (* a before function panicked: the operation ends there *)
 
-Record st := mk { status : Z; size : N; hooks : list nat; once : bool }.
+Record st := mk { status : Z; size : N; hooks : list (nat * bool); once : bool }.
 
 Definition init : st := mk 0 0 [] false.
 
-(* responseWriter.WriteHeader: sync.Once { if Written return; callBefore;
-   underlying.WriteHeader(s); status = s } *)
-Definition write_header (s : st) (c : Z) : st * list ev :=
-  if once s then (s, [])
-  else if negb (Z.eqb (status s) 0) then (mk (status s) (size s) (hooks s) true, [])
-  else (mk c (size s) (hooks s) true,
-        map (fun id => EHook id (status s)) (rev (hooks s)) ++ [UWriteHeader c]).
+(* callBefore on the before functions, newest first: stops at the first one that panics *)
+Fixpoint call_before (seen : Z) (l : list (nat * bool)) : list ev * bool :=
+  match l with
+  | [] => ([], false)
+  | (id, p) :: l' =>
+      if p then ([EHook id seen; EPanic], true)
+      else let '(es, b) := call_before seen l' in (EHook id seen :: es, b)
+  end.
 
-Definition ensure_header (s : st) : st * list ev :=
-  if Z.eqb (status s) 0 then write_header s 200 else (s, []).
+(* responseWriter.WriteHeader (as repaired by commit 4f6e53a):
+     once.Do(callBefore); if CAS(status, 0, s) { underlying.WriteHeader(s) }
+   a panic inside sync.Once.Do still spends the Once.  Result: state, events, "the call panicked". *)
+Definition write_header (s : st) (c : Z) : st * list ev * bool :=
+  let '(es, pan) := if once s then ([], false) else call_before (status s) (rev (hooks s)) in
+  if pan then (mk (status s) (size s) (hooks s) true, es, true)
+  else if Z.eqb (status s) 0 then (mk c (size s) (hooks s) true, es ++ [UWriteHeader c], false)
+  else (mk (status s) (size s) (hooks s) true, es, false).
+
+Definition ensure_header (s : st) : st * list ev * bool :=
+  if Z.eqb (status s) 0 then write_header s 200 else (s, [], false).
 
 Definition step (head : bool) (s : st) (o : op) : st * list ev :=
   match o with
-  | OWriteHeader c => write_header s c
+  | OWriteHeader c => let '(s1, e1, _) := write_header s c in (s1, e1)
   | OWrite bs acc =>
-      let '(s1, e1) := ensure_header s in
-      if head then (s1, e1)
+      let '(s1, e1, pan) := ensure_header s in
+      if pan || head then (s1, e1)
       else let n := N.min acc (slen bs) in
            (mk (status s1) (size s1 + n) (hooks s1) (once s1), e1 ++ [UWrite bs n])
   | OFlush =>
-      let '(s1, e1) := ensure_header s in (s1, e1 ++ [UFlush])
-  | OBefore id => (mk (status s) (size s) (hooks s ++ [id]) (once s), [])
+      let '(s1, e1, pan) := ensure_header s in if pan then (s1, e1) else (s1, e1 ++ [UFlush])
+  | OBefore id p => (mk (status s) (size s) (hooks s ++ [(id, p)]) (once s), [])
   | OStatus => (s, [AStatus (status s)])
   | OSize => (s, [ASize (size s)])
   | OWritten => (s, [AWritten (negb (Z.eqb (status s) 0))])
@@ -69,10 +80,11 @@ Definition run (head : bool) (ops : list op) : list (list ev) := run_from head i
 Record judge := mkj {
   sent : option Z;       (* status line seen at the underlying writer *)
   fwd  : N;              (* body bytes seen at the underlying writer *)
-  regs : list nat        (* hooks registered so far *)
+  regs : list (nat * bool);   (* before functions registered so far *)
+  fired : bool           (* a WriteHeader / first Write / first Flush has been attempted *)
 }.
 
-Definition jinit : judge := mkj None 0 [].
+Definition jinit : judge := mkj None 0 [] false.
 
 Definition is_trigger (o : op) : bool :=
   match o with OWriteHeader _ | OWrite _ _ | OFlush => true | _ => false end.
@@ -89,40 +101,48 @@ Definition ev_eqb (a b : ev) : bool :=
   | AStatus x, AStatus y => Z.eqb x y
   | ASize x, ASize y => N.eqb x y
   | AWritten x, AWritten y => Bool.eqb x y
+  | EPanic, EPanic => true
   | _, _ => false
   end.
 
-(* what the property demands of one operation, given what has been seen *)
+(* what the property demands of one operation, given what has been seen: the first attempt to send a
+   status runs the before functions registered so far, newest first, each seeing status 0; if one of
+   them panics the operation ends there with nothing sent (and they never run again); otherwise
+   exactly one status line goes out as long as none has *)
 Definition expected (head : bool) (j : judge) (o : op) : list ev :=
-  let first := match sent j with
-               | None => if is_trigger o
-                         then map (fun id => EHook id 0) (rev (regs j)) ++ [UWriteHeader (trigger_code o)]
-                         else []
-               | Some _ => []
-               end in
-  match o with
-  | OWriteHeader _ => first
-  | OWrite bs acc => first ++ (if head then [] else [UWrite bs (N.min acc (slen bs))])
-  | OFlush => first ++ [UFlush]
-  | OBefore _ => []
-  | OStatus => [AStatus (match sent j with Some c => c | None => 0 end)]
-  | OSize => [ASize (fwd j)]
-  | OWritten => [AWritten (match sent j with Some _ => true | None => false end)]
-  end.
+  let attempt := is_trigger o && match sent j with None => true | Some _ => false end in
+  let '(pre, pan) := if attempt && negb (fired j) then call_before 0 (rev (regs j)) else ([], false) in
+  if pan then pre
+  else
+    let first := if attempt then pre ++ [UWriteHeader (trigger_code o)] else [] in
+    match o with
+    | OWriteHeader _ => first
+    | OWrite bs acc => first ++ (if head then [] else [UWrite bs (N.min acc (slen bs))])
+    | OFlush => first ++ [UFlush]
+    | OBefore _ _ => []
+    | OStatus => [AStatus (match sent j with Some c => c | None => 0 end)]
+    | OSize => [ASize (fwd j)]
+    | OWritten => [AWritten (match sent j with Some _ => true | None => false end)]
+    end.
 
 (* the judge advances on the *observed* events only *)
 Fixpoint observe (j : judge) (es : list ev) : judge :=
   match es with
   | [] => j
   | UWriteHeader c :: es' =>
-      observe (mkj (match sent j with None => Some c | s => s end) (fwd j) (regs j)) es'
-  | UWrite _ n :: es' => observe (mkj (sent j) (fwd j + n) (regs j)) es'
+      observe (mkj (match sent j with None => Some c | s => s end) (fwd j) (regs j) (fired j)) es'
+  | UWrite _ n :: es' => observe (mkj (sent j) (fwd j + n) (regs j) (fired j)) es'
   | _ :: es' => observe j es'
   end.
 
 Definition jstep (j : judge) (o : op) (es : list ev) : judge :=
   let j1 := observe j es in
-  match o with OBefore id => mkj (sent j1) (fwd j1) (regs j1 ++ [id]) | _ => j1 end.
+  match o with
+  | OBefore id p => mkj (sent j1) (fwd j1) (regs j1 ++ [(id, p)]) (fired j1)
+  | OWriteHeader _ => mkj (sent j1) (fwd j1) (regs j1) true
+  | OWrite _ _ | OFlush => mkj (sent j1) (fwd j1) (regs j1) (fired j1 || match sent j with None => true | Some _ => false end)
+  | _ => j1
+  end.
 
 Fixpoint judge_from (head : bool) (j : judge) (ops : list op) (outs : list (list ev)) : bool :=
   match ops, outs with
